@@ -987,7 +987,8 @@ pub fn is_ident_numeric_data_type(cddl: &CDDL, ident: &Identifier) -> bool {
 
 /// Is the given identifier associated with a uint data type
 pub fn is_ident_uint_data_type(cddl: &CDDL, ident: &Identifier) -> bool {
-  if let Token::UINT = lookup_ident(ident.ident) {
+  // `unsigned = uint / biguint`: as far as plain integers go it is uint
+  if let Token::UINT | Token::UNSIGNED = lookup_ident(ident.ident) {
     return true;
   }
 
